@@ -2,7 +2,9 @@
 #include <cstdlib>
 #include <new>
 static long live_allocs, total_allocs, count_allocs; static int counting;
-void *operator new(std::size_t n) { void *p = std::malloc(n ? n : 1); if (!p) std::abort(); ++live_allocs; ++total_allocs; if (counting) ++count_allocs; return p; }
+static long fail_at, new_calls;      // vf_new_fail_at(k): the k-th operator new from now on throws std::bad_alloc (0 = never)
+extern "C" void vf_new_fail_at(int k) { fail_at = k; new_calls = 0; }
+void *operator new(std::size_t n) { if (fail_at && ++new_calls == fail_at) { fail_at = 0; throw std::bad_alloc(); } void *p = std::malloc(n ? n : 1); if (!p) std::abort(); ++live_allocs; ++total_allocs; if (counting) ++count_allocs; return p; }
 void *operator new[](std::size_t n) { return operator new(n); }
 void operator delete(void *p) noexcept { if (p) { --live_allocs; std::free(p); } }
 void operator delete[](void *p) noexcept { operator delete(p); }
